@@ -14,6 +14,9 @@ V6  a block evaluates to the wires of its last statement
 V7  a call binds the i-th parameter of the called function to the i-th argument and returns the wires of that function's body
 V8  array reads select with push_mux(index bit, element at i + stride, element at i) in both copies of the mux tree
 V9  assignment through tuple / struct accessors writes back at the offset and width recorded when the accessor was read
+V12 the one-bit builder primitives (not, or, eq, mux, full adder, multiplier cell, conditional swap) compute their Boolean
+    functions: abstract interpretation of their bodies over truth tables of the wire parameters (this discharges the
+    "push_mux(s, a, b) selects a when s" assumption of C02 / C14 / C01)
 V11 both reference evaluators compute xor / and / not of exactly the wires the gate names
 V10 cross-reference: call arguments are lowered in the caller's scope before any parameter is bound (C14-E7)
 """
@@ -798,5 +801,195 @@ def _index_key_paths(body, op, depth=4):
     return out
 
 
+# ---------------------------------------------------------------------------------------------------- V12
+# Abstract interpretation of the one-bit builder primitives over the domain "Boolean function of the wire parameters"
+# (a truth table with 2^k rows).  push_xor / push_and are the base gates (their meaning is what the evaluators compute,
+# V11); everything else is a composition of calls, which the interpreter evaluates table-wise.  Branches on the identity of
+# two wires (`if x0 == x1 { return x0 }`) are followed on both sides; on the equal side only the rows where the two
+# functions agree are kept.
+
+BUILDER = "circuit::CircuitBuilder::"
+
+
+def _tt_specs():
+    def tbl(k, fn):
+        rows = 1 << k
+        out = 0
+        for row in range(rows):
+            bits = [(row >> i) & 1 for i in range(k)]
+            if fn(*bits):
+                out |= 1 << row
+        return out
+    return {
+        "push_not": (1, lambda x: (1 - x,)),
+        "push_or": (2, lambda x, y: (x | y,)),
+        "push_eq": (2, lambda x, y: (1 - (x ^ y),)),
+        "push_mux": (3, lambda s_, a, b: (a if s_ else b,)),
+        "push_adder": (3, lambda x, y, c: ((x + y + c) & 1, (x + y + c) >> 1)),
+        "push_multiplier": (4, lambda x, y, z, c: (((x & y) + z + c) & 1, ((x & y) + z + c) >> 1)),
+        "push_condswap": (3, lambda s_, x, y: ((y, x) if s_ else (x, y))),
+    }, tbl
+
+
+class _TT:
+    def __init__(self, ctx, k):
+        self.ctx = ctx
+        self.k = k
+        self.rows = 1 << k
+        self.full = (1 << self.rows) - 1
+        self.memo = {}
+
+    def var(self, i):
+        out = 0
+        for row in range(self.rows):
+            if (row >> i) & 1:
+                out |= 1 << row
+        return out
+
+    def call(self, name, args, depth):
+        """tables of the results of builder primitive `name` applied to argument tables"""
+        seg = mir.last_seg(name)
+        if seg == "push_xor":
+            return (args[0] ^ args[1],)
+        if seg == "push_and":
+            return (args[0] & args[1],)
+        if depth > 6:
+            raise AnchorMissing("V12: call depth exceeded at %s" % name)
+        key = (name, tuple(args))
+        if key not in self.memo:
+            outs = self.run(name, args, depth + 1)
+            # all exits must agree on the rows they are valid for; combine
+            res = None
+            for (vals, mask) in outs:
+                if res is None:
+                    res = [0] * len(vals)
+                    seen = 0
+                for i, v in enumerate(vals):
+                    res[i] |= v & mask & ~seen
+                seen |= mask
+            if res is None or seen != self.full:
+                raise AnchorMissing("V12: %s has rows without a result" % name)
+            self.memo[key] = tuple(res)
+        return self.memo[key]
+
+    def run(self, fid, args, depth):
+        """[(result tables, row mask)] for every exit of fid"""
+        body = self.ctx.body(fid)
+        env0 = {}
+        for i, a in enumerate(args):
+            env0[i + 2] = a          # _1 is self
+        outs = []
+        work = [(0, env0, self.full)]
+        steps = 0
+        while work:
+            b, env, mask = work.pop()
+            steps += 1
+            if steps > 400:
+                raise AnchorMissing("V12: %s: too many paths" % fid)
+            env = dict(env)
+            blk = body.blocks[b]
+            for st in blk["stmts"]:
+                if st["k"] != "assign":
+                    continue
+                d = st["place"]
+                rv = st["rv"]
+                val = None
+                if rv["k"] == "use":
+                    val = self.operand(env, rv["op"])
+                elif rv["k"] == "aggregate" and rv.get("akind") == "tuple":
+                    val = tuple(self.operand(env, o) for o in rv["ops"])
+                elif rv["k"] == "binop" and rv["op"] in ("Eq", "Ne"):
+                    l, r = self.operand(env, rv["l"]), self.operand(env, rv["r"])
+                    if isinstance(l, int) and isinstance(r, int):
+                        val = ("cmp", rv["op"], l, r)
+                elif rv["k"] == "ref":
+                    val = ("ref",)
+                if not d["p"]:
+                    env[d["l"]] = val
+            t = blk["term"]
+            if t["k"] == "goto":
+                work.append((t["target"], env, mask))
+            elif t["k"] == "return":
+                v = env.get(0)
+                outs.append(((v,) if isinstance(v, int) else tuple(v), mask))
+            elif t["k"] == "switch":
+                c = self.operand(env, t["discr"])
+                if not (isinstance(c, tuple) and c and c[0] == "cmp"):
+                    raise AnchorMissing("V12: %s branches on something that is not a wire comparison" % fid)
+                _, op, l, r = c
+                same = ~(l ^ r) & self.full     # rows on which the two wires carry the same value
+                zero_t = [tg for v, tg in t["targets"] if v == 0]
+                other = [x for x in body.succs(b) if x not in zero_t and not body.blocks[x]["cleanup"]]
+                eq_side, ne_side = (other, zero_t) if op == "Eq" else (zero_t, other)
+                # identical wires imply identical values: the equal side is only meaningful on `same` rows; different
+                # wires can still carry equal values, so the other side keeps every row
+                for x in eq_side:
+                    if mask & same:
+                        work.append((x, env, mask & same))
+                for x in ne_side:
+                    work.append((x, env, mask))
+            elif t["k"] == "call":
+                name = mir.callee(t) or ""
+                if not name.startswith(BUILDER):
+                    raise AnchorMissing("V12: %s calls %s" % (fid, name))
+                cargs = [self.operand(env, a) for a in t["args"][1:]]
+                if not all(isinstance(a, int) for a in cargs):
+                    raise AnchorMissing("V12: %s passes a non-wire to %s" % (fid, name))
+                vals = self.call(name, cargs, depth)
+                if not t["dest"]["p"]:
+                    env[t["dest"]["l"]] = vals[0] if len(vals) == 1 else tuple(vals)
+                work.append((t["target"], env, mask))
+            elif t["k"] == "assert":
+                work.append((t["target"], env, mask))
+            elif t["k"] == "drop":
+                work.append((t["target"], env, mask))
+            else:
+                raise AnchorMissing("V12: %s: terminator %s" % (fid, t["k"]))
+        return outs
+
+    def operand(self, env, op):
+        if op["k"] == "const":
+            v = op.get("val")
+            if v == 0:
+                return 0
+            if v == 1:
+                return self.full
+            return ("const", v)
+        pl = op["place"]
+        v = env.get(pl["l"])
+        for e in pl["p"]:
+            if e["k"] == "field" and isinstance(v, tuple) and v and not isinstance(v[0], str):
+                v = v[e["i"]]
+            elif e["k"] == "deref":
+                pass
+            else:
+                return None
+        return v
+
+
+def rule_v12(ctx):
+    res = RuleResult("V12", "the one-bit builder primitives compute the Boolean functions their callers rely on (truth-table interpretation)")
+    specs, tbl = _tt_specs()
+    for seg, (k, fn) in sorted(specs.items()):
+        fid = BUILDER + seg
+        if fid not in ctx.fns:
+            raise AnchorMissing("V12: %s not found" % fid)
+        tt = _TT(ctx, k)
+        args = [tt.var(i) for i in range(k)]
+        got = tt.call(fid, args, 0)
+        want = []
+        n_out = len(fn(*([0] * k)))
+        for j in range(n_out):
+            want.append(tbl(k, lambda *bits, j=j: fn(*bits)[j]))
+        if tuple(want) == tuple(got):
+            res.ok({"primitive": seg, "inputs": k, "verdict": "truth table matches on all %d rows" % (1 << k)})
+        else:
+            rows = [r for r in range(1 << k) if any(((g >> r) & 1) != ((w >> r) & 1) for g, w in zip(got, want))]
+            res.bad(Finding("V12", fid, "%s computes a different Boolean function" % seg,
+                            "interpreting the body over truth tables of its wire parameters gives a result that differs from the function its callers assume on input rows %s "
+                            "(bit i of a row number = value of the i-th wire parameter)" % rows[:8], ctx.fns[fid]["sp"]))
+    return res
+
+
 def run(ctx):
-    return ctx.run_rules([rule_v11, rule_v1, rule_v2, rule_v3, rule_v4, rule_v5, rule_v6, rule_v7, rule_v8, rule_v9, rule_v10])
+    return ctx.run_rules([rule_v12, rule_v11, rule_v1, rule_v2, rule_v3, rule_v4, rule_v5, rule_v6, rule_v7, rule_v8, rule_v9, rule_v10])
